@@ -220,13 +220,15 @@ func (cr *checkRunner) runAndMergeResults(states []module.CheckState, runner fun
 				data.headerLock.Unlock()
 			}
 
-			if subCheckRes.Quarantine {
-				data.setQuarantineErr.Do(func() {
-					data.quarantineErr = subCheckRes.Reason
-				})
-			} else if subCheckRes.Reject {
+			if subCheckRes.Reject {
+				// Reject wins if a check sets both flags (e.g. a milter that
+				// asks for quarantine and then rejects the message).
 				data.setRejectErr.Do(func() {
 					data.rejectErr = subCheckRes.Reason
+				})
+			} else if subCheckRes.Quarantine {
+				data.setQuarantineErr.Do(func() {
+					data.quarantineErr = subCheckRes.Reason
 				})
 			} else if subCheckRes.Reason != nil {
 				// 'action ignore' case. There is Reason, but action.Apply set
